@@ -200,10 +200,49 @@ PROGS_Q = ['lu(2x2)', 'cholesky(outer(x,x)+I)', 'sqrt(x)*x[0]', 'x*x', 'sin(x)*x
 PROGS_T = PROGS_Q + ['x[1:]*x[:-1]', 'log(sum sq)', 'prod', 'x**3', 'expit', 'erf', 'x*x[::-1]', 'x**2.5', 'reciprocal', 'log']
 
 
+def h_gradient_shape_history(ctx):
+    """cg.gradient on a scalar program called with a scalar, then with a vector of points (a
+    vector-valued result: refused), then with the scalar again: whether a call returns a value or
+    raises depends on its argument only, and the values agree.  Concrete numbers: decided on the
+    float build."""
+    algopy = symx.load_algopy()
+    if ctx.mode == 'sym':
+        ctx.fact(True, 'call histories with changing argument shapes: decided on the float build')
+        ctx.eq(S.const(0), S.const(0), 'gradient')
+        return
+    cg = algopy.CGraph()
+    x = algopy.Function(3.)
+    y = x * x * algopy.sin(x)
+    cg.trace_off()
+    cg.independentFunctionList = [x]
+    cg.dependentFunctionList = [y]
+    d = lambda t: 2 * t * np.sin(t) + t * t * np.cos(t)
+
+    def call(arg):
+        try:
+            return ('value', np.asarray(cg.gradient(arg), dtype=float))
+        except Exception as e:
+            return ('raises', None)
+    seq = [np.array(2.), np.array([2., 3.]), np.array(2.), np.array([2., 3.]), np.array([1.5]), np.array(0.5), [0.5]]
+    first = {}
+    for k, arg in enumerate(seq):
+        key = repr(arg)
+        r = call(arg)
+        if key in first:
+            ctx.fact(r[0] == first[key][0], 'call %d, gradient(%s): %s the first time, %s now' % (k, key, first[key][0], r[0]))
+            if r[0] == 'value' and first[key][0] == 'value':
+                ctx.eq(r[1], first[key][1], 'call %d, gradient(%s) == its first value' % (k, key))
+        else:
+            first[key] = r
+        if r[0] == 'value' and np.size(arg) == 1:
+            ctx.eq(np.ravel(r[1]), np.ravel(d(np.asarray(arg, dtype=float))), 'call %d, gradient(%s) == closed form' % (k, key))
+
+
 def units(tier, seed):
     out = []
     opts = {'property': PROP, 'path_budget': 600, 'validate_paths': 2}
     hs = histories(tier, seed)
+    out.append(Unit('C06/gradient called with arguments of changing shape (scalar, vector of points, scalar)', 'symx.props.c06', 'h_gradient_shape_history', {}, dict(opts)))
     progs = PROGS_Q if tier == 'quick' else PROGS_T
     rng = random.Random(7 + seed)
     for pn in progs:
